@@ -766,7 +766,28 @@ pub fn t_stream_map(rng: &mut Rng, ids: &[String]) -> Tpl {
     Tpl { family: Family::StreamMap, name: "stream_map".into(), air: script.text(), script, n_peers: ids.len(), recursive: false }
 }
 
+/// A prelude that makes the SAME append sit at different trace positions in different peers' data: a call on another peer fills
+/// `$early…`, and a fold over it (in the left branch of a par, so nobody waits for it) leaves a sub-trace only where that value
+/// was known when the peer ran.  Merges then have to map positions (`new_to_prev_pos` / `new_to_current_pos`) for real.
+fn with_shifting_prelude(rng: &mut Rng, ids: &[String], mut t: Tpl) -> Tpl {
+    let k = rng.below(1000);
+    let (p1, p2) = (lit(&ids[rng.below(ids.len())]), lit(&ids[rng.below(ids.len())]));
+    let early = format!("$early{k}"); let ew = format!("$ew{k}");
+    let fill = par(call(p1, "svc", &format!("str_early{k}"), vec![], stream(&early)), Instr::Null);
+    let body = par(call(p2, "svc", &format!("echo_ew{k}"), vec![sc("je")], stream(&ew)), next("je"));
+    let prelude = seq(fill, par(fold_stream(&early, "je", body, None), Instr::Null));
+    t.script = seq(prelude, t.script);
+    t.air = t.script.text();
+    t.name = format!("{}+shifted", t.name);
+    t
+}
+
 pub fn gen_template(rng: &mut Rng, fam: Family, ids: &[String]) -> Tpl {
+    let t = gen_template_plain(rng, fam, ids);
+    if rng.chance(1, 4) { with_shifting_prelude(rng, ids, t) } else { t }
+}
+
+fn gen_template_plain(rng: &mut Rng, fam: Family, ids: &[String]) -> Tpl {
     match fam {
         Family::StreamMap => t_stream_map(rng, ids),
         Family::WritersCanon => t_writers_canon(rng, ids),
